@@ -138,6 +138,31 @@ Theorem C19_k8s_progress : forall l s,
   exists s', kstep s KFire = Some s' /\ k_pending s' = false.
 Proof. intros l s H. apply k_progress. exists l; exact H. Qed.
 
+(* the emission `out <- event` as a blocking send (two steps: expiry, delivery;
+   [dkrun false]: the code has no drop step).  C19_notification_not_dropped: a
+   fired timer's notification is delivered or stays pending in the send *)
+Theorem C19_notification_not_dropped : forall l s,
+  dkrun false dkinit l = Some s -> dk_pending s = true -> dk_timer s = true \/ dk_sending s = true.
+Proof. intros l s H. apply notification_not_dropped. exists l; exact H. Qed.
+
+Theorem C19_k8s_delivery_progress : forall l s,
+  dkrun false dkinit l = Some s -> dk_pending s = true ->
+  exists cont s', length cont <= 2 /\ (forall e, In e cont -> e = DExpire \/ e = DDeliver) /\
+                  dkrun false s cont = Some s' /\ dk_pending s' = false /\ dk_out s' = N.succ (dk_out s).
+Proof. intros l s H. apply delivery_progress. exists l; exact H. Qed.
+
+Theorem C19_k8s_blocking_send_refines : forall l s,
+  dkrun false dkinit l = Some s -> krun kinit (dk_collapse l) = Some (dk_abs s).
+Proof. exact dk_refines. Qed.
+
+(* with a non-blocking send (a drop step) the obligation fails: notification
+   pending, no timer, nothing in flight, and only a NEW notification can move on *)
+Theorem C19_dropping_send_loses_notification :
+  exists s, dkrun true dkinit [DNotify; DExpire; DDrop] = Some s /\
+            dk_pending s = true /\ dk_timer s = false /\ dk_sending s = false /\ dk_out s = 0%N /\
+            forall e, e <> DNotify -> dkstep true s e = None.
+Proof. exact dropping_send_loses_notification. Qed.
+
 (* validateReload asks for a re-apply exactly on a new time stamp with status "failure" (= 1) *)
 Theorem C19_validate_reload : forall fields prev,
   snd (validate_reload fields prev) = true <-> exists ts, fields = Some [ts; 1%N] /\ ts <> prev.
